@@ -2037,7 +2037,8 @@ def project_by_dykstra(weights,
         for offsets in itertools.product([-1, 1], repeat=len(dimensions)):
           # For this projection constraint group is represented by pair: vertex,
           # offsets.
-          projection_key = ("JOINT_UNIMODALITY", dimensions, vertex, offsets)
+          projection_key = ("JOINT_UNIMODALITY", dimensions, constraint[1],
+                            vertex, offsets)
           if projection_key in last_change:
             rolled_back_weights = weights - last_change[projection_key]
           else:
